@@ -1009,6 +1009,14 @@ impl<'a> PredGen<'a> {
         let col = self.pick_col(rng);
         let ty = &self.m.cols[col].ty;
         let class = class_of(ty);
+        if *ty == ColTy::ListI32 {
+            return if rng.chance(1, 8) {
+                Pred::IsNull { col, neg: rng.bool() }
+            } else {
+                let n = rng.urange(1, 3);
+                Pred::ArrayHas { col, all: rng.chance(1, 3), vals: (0..n).map(|_| rng.range(-5, 6) as i128).collect() }
+            };
+        }
         if class == Class::Bool {
             return match rng.below(8) {
                 0 | 1 => Pred::BoolCol(col),
@@ -1297,7 +1305,7 @@ pub fn classify_err(e: &lance::Error) -> ScanErr {
     }
 }
 
-pub const OP_TIMEOUT: Duration = Duration::from_secs(60);
+pub const OP_TIMEOUT: Duration = Duration::from_secs(120);
 
 /// Run a future with panic capture and a watchdog.
 pub async fn guarded<T, F>(f: F) -> Result<T, ScanErr>
@@ -1479,6 +1487,11 @@ pub fn set_diff(a: &BTreeSet<i64>, b: &BTreeSet<i64>) -> (Vec<i64>, Vec<i64>) {
 
 pub fn trunc<T: Clone>(v: &[T], n: usize) -> Vec<T> {
     v.iter().take(n).cloned().collect()
+}
+
+/// Worker threads of a check: env `VERIF_THREADS` (default 16).
+pub fn n_threads() -> usize {
+    std::env::var("VERIF_THREADS").ok().and_then(|s| s.parse::<usize>().ok()).filter(|n| *n > 0).unwrap_or(16)
 }
 
 /// Run `work(thread_index)` on `n` OS threads, each with its own tokio runtime.
